@@ -182,6 +182,21 @@ Theorem bind_is_one_bundle_in_issue_order : forall V s body,
     stack (snd r) = [].
 Proof. exact bind_one_bundle. Qed.
 
+(* A server.sync() inside the block (real-time mode) splits it: what was issued before the sync leaves as one
+   bundle right before the '/sync', what is issued after it leaves as one bundle when the block exits; every
+   command is in exactly one piece, pieces and commands in issue order.  (Hypothesis: the commands before the
+   sync are encodable; otherwise sync() raises ValueError, see sync_fuel.) *)
+Theorem bind_with_sync_sends_every_command_once_in_order : forall V s b1 b2 id,
+  stack s = [] -> forallb nonbind b1 = true -> forallb nonbind b2 = true ->
+  let s1 := set_stack s [[]] in
+  let s2 := set_stack (snd (run V s1 b1)) [[]] in
+  wire_msgs (issued V s1 b1) <> None ->
+  let r := run V s (OBindEnter :: b1 ++ OSync id :: b2 ++ [OBindExit]) in
+  exists rb1 rb2 ex,
+    fst r = ([], None) :: rb1 ++ (flushed (issued V s1 b1) ++ [sync_event id], None) :: rb2 ++ [ex] /\
+    silent rb1 /\ silent rb2 /\ fst ex = flushed (issued V s2 b2) /\ stack (snd r) = [].
+Proof. exact bind_sync_pieces. Qed.
+
 (* ... and not at all if the block raises (nested blocks inside may exit or raise as they like;
    the exception leaves every block still open, the outermost included). *)
 Theorem bind_raises_sends_nothing : forall V s body k,
@@ -203,6 +218,18 @@ Example bind_example :
         [("/s_new", [AStr "default"; AInt 1001; AInt 1; AInt 1000; AStr "freq"; AOpen; AInt 440; AFlt (1 # 2); AClose]);
          ("/n_run", [AInt 1001; AInt 0]);
          ("/n_set", [AInt 1001; AStr "gate"; AFlt (-3 # 1)])]], None) ].
+Proof. vm_compute. reflexivity. Qed.
+
+Example sync_example :
+  fst (run repaired st0
+        [OGroup false 1000 TgNone (ActS "addToHead"); OBindEnter; ONodeRun 0 (PBool true); OBindEnter;
+         ONodeTrace 0; OSync 7; ONodeQuery 0; OBindExit; ONodeFree 0 true; OBindExit; OSync 8]) =
+  [ ([WMsg ("/g_new", [AInt 1000; AInt 0; AInt 1])], None); ([], None); ([], None); ([], None); ([], None);
+    ([WBundle (PInt 0) [("/n_run", [AInt 1000; AInt 1]); ("/n_trace", [AInt 1000])];
+      WBundle PNone [("/sync", [AInt 7])]], None);
+    ([], None); ([], None); ([], None);
+    ([WBundle (PInt 0) [("/n_query", [AInt 1000]); ("/n_free", [AInt 1000])]], None);
+    ([WBundle PNone [("/sync", [AInt 8])]], None) ].
 Proof. vm_compute. reflexivity. Qed.
 
 Example raise_example :
